@@ -1,0 +1,51 @@
+//go:build verif
+
+// Copyright 2025 NVIDIA CORPORATION
+// SPDX-License-Identifier: Apache-2.0
+
+package framework
+
+import (
+	"github.com/NVIDIA/KAI-scheduler/pkg/scheduler/api/pod_info"
+)
+
+// VerifStatementObserver, when set, is called at the statement lifecycle points
+// ("new", "checkpoint", "rollback-begin", "rollback-end", "discard-begin", "discard-end",
+// "commit-begin", "commit-end"). Only compiled with -tags verif.
+var VerifStatementObserver func(ssn *Session, s *Statement, phase string, checkpoint int)
+
+func verifStmt(ssn *Session, s *Statement, phase string, checkpoint int) {
+	if VerifStatementObserver != nil {
+		VerifStatementObserver(ssn, s, phase, checkpoint)
+	}
+}
+
+// VerifOp is a read-only view of one statement operation.
+type VerifOp struct {
+	Kind   string // evict | pipeline | allocate | undo
+	Task   *pod_info.PodInfo
+	Node   string // target node of allocate/pipeline
+	Target int    // undo: index of the undone operation
+	Valid  bool
+}
+
+// VerifOps returns the operation log of the statement.
+func (s *Statement) VerifOps() []VerifOp {
+	out := make([]VerifOp, 0, len(s.operations))
+	for i, op := range s.operations {
+		v := VerifOp{Kind: op.Name(), Task: op.TaskInfo(), Valid: s.operationValid(i), Target: -1}
+		switch o := op.(type) {
+		case pipelineOperation:
+			v.Node = o.nextNode
+		case allocateOperation:
+			v.Node = o.nextNode
+		case undoOperation:
+			v.Target = o.operationIndex
+		}
+		out = append(out, v)
+	}
+	return out
+}
+
+// VerifSession returns the session the statement belongs to.
+func (s *Statement) VerifSession() *Session { return s.ssn }
